@@ -1169,6 +1169,45 @@ func (ff *FuncFacts) resolveAt(ins ssa.Instruction, v ssa.Value) ssa.Value {
 	return v
 }
 
+// feasibleAt: like resolveAt, but for a merge that keeps several feasible edges: the values that
+// can arrive (merges among them resolved the same way). nil when nothing can be excluded soundly.
+func (ff *FuncFacts) feasibleAt(ins ssa.Instruction, v ssa.Value, depth int) []ssa.Value {
+	v = ff.resolveAt(ins, v)
+	s := ff.at[ins]
+	phi, ok := v.(*ssa.Phi)
+	if !ok || s == nil || ff.phiImpl == nil || depth > 4 {
+		return []ssa.Value{v}
+	}
+	if loopHeader(loopBlocks(phi.Block())) != loopHeader(loopBlocks(ins.Block())) {
+		return []ssa.Value{v}
+	}
+	es := ff.phiImpl[phi.Block()]
+	if len(es) != len(phi.Edges) {
+		return []ssa.Value{v}
+	}
+	var out []ssa.Value
+	for i, e := range phi.Edges {
+		if es[i] == nil {
+			continue
+		}
+		u := newFactState()
+		for f := range es[i].facts {
+			u.facts[f] = true
+		}
+		for f := range s.facts {
+			u.facts[f] = true
+		}
+		if contradictory(u) {
+			continue
+		}
+		out = append(out, ff.feasibleAt(ins, e, depth+1)...)
+	}
+	if len(out) == 0 {
+		return []ssa.Value{v}
+	}
+	return out
+}
+
 // curLoopDiffers guards the use of current facts to exclude phi edges: facts
 // about values computed inside a loop describe the latest iteration only, so
 // the exclusion is applied only to merges outside loops.
